@@ -26,6 +26,7 @@ from __future__ import annotations
 
 import itertools
 import json
+import math
 from fractions import Fraction as F
 
 from .. import core
@@ -121,13 +122,27 @@ def evaluate(run, cases, fixes, label):
 
     for (cfg, hist), recs, (mres, mtracks) in zip(cases, recs_all, model):
         scoring_steps = 0
+        all_uids = [d["uid"] for fr in hist for d in fr]
+        unique_uids = len(set(all_uids)) == len(all_uids)
         impl_out = [cc.out_pairs(r) for r in recs]
-        model_out = [({"raises": o[1]} if o[0] == "raise" else [list(x) for x in o[1]]) for o, _ in mres]
+        model_out = [({"raises": o[1]} if o[0] == "raise" else [list(x) for x in o[1]]) for o, _, _ in mres]
         same = impl_out == model_out
         # per-step checks made by the model on the recorded inputs
         why = None
-        for k, ((o, chk), rec) in enumerate(zip(mres, recs)):
+        for k, ((o, chk, cands), rec) in enumerate(zip(mres, recs)):
             scoring, nan_ok, valid_ok, greedy_ok, s1, s2, s3 = chk
+            if "scores" in rec and unique_uids:
+                # the recorded matrix is the reduction, over the candidates the model's queues hold, of the
+                # repo's scoring function (ties window/queue contents to get_scores beyond the NaN pattern)
+                M0 = rec["scores"]
+                M1 = cc.recompute_scores(cfg, recs, k, cands)
+                bump("score_matrices_recomputed")
+                okm = len(M1) == M0.shape[0] and all(len(r) == M0.shape[1] for r in M1) and all(
+                    (math.isnan(a) and math.isnan(b)) or abs(a - b) <= 1e-9 * (1 + abs(b))
+                    for ra, rb in zip(M1, M0.tolist()) for a, b in zip(ra, rb))
+                if not okm:
+                    check_bad += 1
+                    why = why or f"frame {k}: score matrix recomputed from the model's candidates {cands} = {M1} != recorded {M0.tolist()}"
             bump("frames")
             if scoring:
                 scoring_steps += 1
@@ -143,6 +158,8 @@ def evaluate(run, cases, fixes, label):
                 M = rec["scores"].tolist()
                 n, m = len(hist[k]), rec["n_tracks_before"]
                 bad = cc.hungarian_contract(M, n, m, rec, fixes["iii_hungarian"]) if n * m <= 48 else None
+                if not bad and fixes["iii_hungarian"] and n and m and all(v != v for row in M for v in row):
+                    bad = "every cell of a non-empty matrix is NaN (hypothesis finite_step of the repaired theorem)"
                 bump("hungarian_contract_checked")
                 if bad:
                     contract_bad += 1
@@ -301,8 +318,9 @@ def check(run: core.Run) -> int:
     run.obligation("correspondence: Tracker.run (Coq, vm_compute, fed with the recorded score matrices and matcher "
                    "answers) == Tracker.track (/repo) frame by frame on every history", disagree == 0,
                    f"{disagree} disagreements")
-    run.obligation("model-side checks on every recorded step: NaN pattern of the score matrix = candidates the "
-                   "model's queues hold; answer is a valid one-to-one assignment; greedy answers are greedy runs",
+    run.obligation("model-side checks on every recorded step: the score matrix is the reduction of the scoring function "
+                   "over exactly the candidates the model's queues hold (values and NaN pattern); answer is a valid "
+                   "one-to-one assignment; greedy answers are greedy runs",
                    check_bad == 0, f"{check_bad} steps")
     run.obligation("Hungarian oracle contract on every recorded answer (brute force): optimal finite assignment, "
                    "fails iff infeasible", contract_bad == 0, f"{contract_bad} steps")
